@@ -54,12 +54,15 @@ Proof.
   apply N.ltb_lt in Hc. rewrite Hc. reflexivity.
 Qed.
 
+(* the one fact about the Unicode database that is needed: surrogate code points (category
+   Cs) are not printable, so repr() always escapes them.  Checked against the running
+   interpreter for all 2048 surrogates on every run of the check. *)
+Definition surrogates_unprintable (printable : N -> bool) : Prop :=
+  forall c, is_surrogate c = true -> printable c = false.
+
 Section Sound.
   Variable printable : N -> bool.
-  (* the one fact about the Unicode database that is needed: surrogate code points (category
-     Cs) are not printable, so repr() always escapes them.  Checked against the running
-     interpreter for all 2048 surrogates on every run of the check. *)
-  Hypothesis surrogates_unprintable : forall c, is_surrogate c = true -> printable c = false.
+  Hypothesis Hsurr : surrogates_unprintable printable.
 
   Definition valid (s : str) : Prop := Forall (fun c => c < MAXCP) s.
 
@@ -123,7 +126,7 @@ Section Sound.
       apply andb_false_iff. left. apply N.leb_gt. lia. }
     destruct (printable c) eqn:Ep.
     { apply Hraw; try assumption. destruct (is_surrogate c) eqn:Es; [|reflexivity].
-      rewrite (surrogates_unprintable c Es) in Ep. discriminate. }
+      rewrite (Hsurr c Es) in Ep. discriminate. }
     destruct (N.leb_spec c 255) as [L|L].
     { apply (lex_escape_hex q c 1 tail 120); auto. rewrite !p16_S, p16_0; lia. }
     destruct (N.leb_spec c 65535) as [L2|L2].
